@@ -112,6 +112,9 @@ fn mode_c07(a: &Args) -> Value {
                 _ => (o, dl, dp, kind),
             };
             *kinds.entry(kind).or_insert(0) += 1;
+            if kind == "same-report-other-phc" {
+                wire::repeat_noise_once();
+            }
             let r = sync_report(o, dl, dp);
             let as_of = (1000 + (k / 1_000_000_000) as i64, (k % 1_000_000_000) as i64);
             d.send(Message::ClockErrorBoundData((tracking_of(&r), phc, ts(as_of.0, as_of.1))));
@@ -354,6 +357,7 @@ fn mode_c10(a: &Args) -> Value {
                     for (when, t) in [("first", t1), ("replayed-later", t2)] {
                         if when == "replayed-later" {
                             clock::fixed::set(((t2 / NS) as i64, (t2 % NS) as i64), (5000 + (dt / NS) as i64, 0));
+                            wire::repeat_noise_once();
                             d.send(Message::ClockErrorBoundData((tracking_of(&r), 0, ts(4100 + (dt / NS) as i64, 0))));
                         }
                         if !matches!(d.wait_publication(), Wait::Published) {
